@@ -426,8 +426,11 @@ def _case(seed: int) -> Dict[str, Any]:
                 b0, b1 = s["ts"] + s["dur"] // 2, s["ts"] + s["dur"]
                 evs.append(synth.annotation("## backward ##", b0, b1 - b0, tid=kw.get("main_tid", 1)))
                 if nthreads == 1:  # a backward thread of its own (the generator drew none): operators sharing the annotation's start / end instants
-                    evs.append(synth.host_op("autograd::engine::evaluate_function: EdgeBackward", b1 - 10, 10, tid=bwd_tid))
-                    evs.append(synth.host_op("autograd::engine::evaluate_function: StartBackward", b0, 5, tid=bwd_tid))
+                    # older PyTorch writes the autograd thread's operators without the `autograd::engine::evaluate_function:` wrapper: the marker sits mid-name
+                    n1, n2 = (("autograd::engine::evaluate_function: EdgeBackward", "autograd::engine::evaluate_function: StartBackward") if seed % 2 == 0
+                              else ("torch::autograd::AccumulateGrad", "torch::autograd::CopyBackwards"))
+                    evs.append(synth.host_op(n1, b1 - 10, 10, tid=bwd_tid))
+                    evs.append(synth.host_op(n2, b0, 5, tid=bwd_tid))
     if two_ranks:
         return _run_case(seed, per_rank, check_rank=1, ranks=None)
     return _run_case(seed, per_rank, builds=2 if seed % 4 == 1 else 1)
